@@ -50,4 +50,12 @@ var Families = []Family{
 	{"unterminated-phrase", func(n int) string { return `a:"` + rep("x ", n) }},
 	{"not-and-chain", func(n int) string { return "NOT a" + rep(" AND NOT a", n) }},
 	{"prefix-suffix-mix", func(n int) string { return rep("+a~2^3 OR -b ", n) + "c" }},
+	{"field-group-nest", func(n int) string { return rep("a:(", n) + "b" + rep(")", n) }},
+	{"field-group-or-nest", func(n int) string { return rep("a:(b OR ", n) + "c*" + rep(")", n) }},
+	{"not-field-group-nest", func(n int) string { return rep("NOT a:(", n) + "b" + rep(")", n) }},
+	{"cmp-group-nest", func(n int) string { return rep("a:>=(", n) + "5" + rep(")", n) }},
+	{"list-of-groups", func(n int) string { return "a:(" + rep("(b OR c) OR ", n) + "d)" }},
+	{"must-field-chain", func(n int) string { return rep("+a:b -c:d ", n) + "e" }},
+	{"fielded-range-or-chain", func(n int) string { return "f:[1 TO 2]" + rep(" OR f:{* TO 3.5}", n) }},
+	{"big-numbers", func(n int) string { return "a:(1" + rep(" OR 18446744073709551616", n) + ")" }},
 }
